@@ -6,9 +6,11 @@ n=mt$$_$RANDOM
 wt=/tmp/mt/$n
 mkdir -p /tmp/mt
 git -C /repo worktree add -q --detach "$wt" HEAD || exit 3
-trap 'git -C /repo worktree remove --force "$wt" 2>/dev/null; rm -rf /tmp/mt/'$n'-out /verif/bin/alt-*.mod /verif/bin/alt-*.sum' EXIT
+V=$(dirname "$(readlink -f "$0")")   # the copy of /verif this script belongs to
+tag=$(echo "$wt" | md5sum | cut -c1-10)
+trap 'git -C /repo worktree remove --force "$wt" 2>/dev/null; rm -rf /tmp/mt/'$n'-out "$V"/bin/alt-$tag.mod "$V"/bin/alt-$tag.sum' EXIT
 if ! git -C "$wt" apply "$patch"; then echo "PATCH-DOES-NOT-APPLY $patch"; exit 3; fi
-cd /verif
+cd "$V"
 for id in "$@"; do
   s=$(date +%s)
   out=$(VERIF_REPO=$wt VERIF_OUT=/tmp/mt/$n-out ./check $id $tier 2>&1); rc=$?
